@@ -23,11 +23,6 @@ Definition w_cfg_test_literal : list node := [N (KMod [SAttr "#[cfg(all(test, fe
 Theorem C17_cfg_test_literal_refuted : refutes 2 (mkcfg [] [] []) w_cfg_test_literal.
 Proof. refute. Qed.
 
-(* #[test] // note fn f() { v0.unwrap(); }   (comment between the attribute and the function) *)
-Definition w_attr_stop_at_comment : list node := [N (KFn [SAttr "#[test]"; SComment] false "f") [N KStmt [N (KMethod 3 4 3 "unwrap") [N (KId "v0") []]]]].
-Theorem C17_attr_stop_at_comment_refuted : refutes 3 (mkcfg [] [] []) w_attr_stop_at_comment.
-Proof. refute. Qed.
-
 (* fn f() { fs::read(v0) <newline> .unwrap(); } *)
 Definition w_chain_start_line : list node := [N (KFn [] false "f") [N KStmt [N (KMethod 1 4 2 "unwrap") [N (KCall 1 4 ["fs"; "read"]) [N (KId "v0") []]]]]].
 Theorem C17_chain_start_line_refuted : refutes 4 (mkcfg [] [] []) w_chain_start_line.
@@ -43,7 +38,3 @@ Definition w_clone_first_pattern : list node := [N (KFn [] false "f") [N KStmt [
 Theorem C17_clone_first_pattern_refuted : refutes 6 (mkcfg [] [("detect_clone_chain", false)] []) w_clone_first_pattern.
 Proof. refute. Qed.
 
-(* async fn f() { TcpStream::connect(v0); } *)
-Definition w_net_bare_type : list node := [N (KFn [] true "f") [N KStmt [N (KCall 1 4 ["TcpStream"; "connect"]) [N (KId "v0") []]]]].
-Theorem C17_net_bare_type_refuted : refutes 7 (mkcfg [] [] []) w_net_bare_type.
-Proof. refute. Qed.
